@@ -302,6 +302,9 @@ PROPS = {
                  'Verus, every program length: the loop of ebpf::to_insn_vec (verbatim) returns len/8 entries, entry i = decode of slot i; get_insn by its Kani-proved contract; the documented panic is unreachable for lengths that are multiples of 8'),
             Part('codec', lambda h: h.startswith('bounded_'), real_or_harness,
                  'BOUNDED cross-check on the real crate (3 slots): to_insn_vec loop'),
+            Part('asm', lambda h: h.startswith(('insn_contract', 'encode_contract')),
+                 lambda h, c, info=None: 'ensures:' in desc(c),
+                 '"the same bytes as ... the assembler": assembler::insn accepts exactly the field values an Insn can hold (every i16 offset, every i32 immediate, registers 0-15) and returns them unchanged; encode places them as the operand shape says (shared with C13) - the bytes then come from Insn::to_array, proved above'),
         ],
         level_text='Loop-free full-domain Kani harnesses over the real public API (complete proofs); the to_insn_vec loop is proved for every length by Verus (get_insn through its contract), with a 3-slot bounded Kani harness on the real crate as a cross-check.',
         assumptions=['insnvec: get_insn is used through its contract (proved by Kani in unit codec), not its body'],
